@@ -141,6 +141,11 @@ def run(rep: Report, prog: Program, tier: str) -> None:
     sleep_action_tables(rep, "R16.3", prog)
     rep.floor("R16.3", 12)
     selectors_and_rest(rep, prog)
+    rep.rule("R16.7", "per-call handlers, hooks and sleepers bound through `.context(...)` reach call() under their own names: the context object is built from the like-named parameters (positional construction follows the field order of the context class) and its call() forwards each value unchanged (= C12 R12.3, context layers)")
+    from .c12 import context_forwarding
+
+    context_forwarding(rep, "R16.7", prog)
+    rep.floor("R16.7", 60)
 
 
 def sleep_protocol(rep: Report, r1: str, r2: str, prog: Program) -> None:
